@@ -181,7 +181,7 @@ func (c *concCtx) k1SoleSenderCloses() {
 			key := fmt.Sprintf("%s.%s/close(chan %s)#%d", c.rel, strings.TrimPrefix(fnKey(cz.fn), c.rel+"."), cl, i+1)
 			others := []string{}
 			for f := range sendFns {
-				if f != cz.fn {
+				if f != cz.fn && !c.runsOnlyInside(f, cz) {
 					others = append(others, fnKey(f))
 				}
 			}
@@ -193,6 +193,54 @@ func (c *concCtx) k1SoleSenderCloses() {
 			}
 		}
 	}
+}
+
+// runsOnlyInside: the sending function f runs only as a synchronous call made by the closing function, and the
+// close happens after that call returned (it is deferred, or dominated by the call): the close and the sends are then
+// sequential in one goroutine (`go func() { defer close(ch); c.readloop() }()`).
+func (c *concCtx) runsOnlyInside(f *ssa.Function, cz chanOp) bool {
+	var callIn ssa.Instruction
+	ok := true
+	for _, fn := range pkgFuncs(c.p, c.rel) {
+		allInstrs(fn, func(in ssa.Instruction) {
+			switch x := in.(type) {
+			case *ssa.Call:
+				if x.Call.StaticCallee() == f {
+					if fn != cz.fn || callIn != nil {
+						ok = false
+					}
+					callIn = in
+				}
+			case *ssa.Go:
+				if x.Call.StaticCallee() == f {
+					ok = false
+				}
+			case *ssa.Defer:
+				if x.Call.StaticCallee() == f {
+					ok = false
+				}
+			}
+			for _, op := range in.Operands(nil) {
+				if op != nil && *op == ssa.Value(f) {
+					if cc := callOf(in); cc == nil || cc.Value != ssa.Value(f) {
+						ok = false // used as a value
+					}
+				}
+				if op != nil && *op != nil {
+					if mc, isMC := (*op).(*ssa.MakeClosure); isMC && mc.Fn == ssa.Value(f) {
+						ok = false
+					}
+				}
+			}
+		})
+	}
+	if !ok || callIn == nil {
+		return false
+	}
+	if _, deferred := cz.in.(*ssa.Defer); deferred {
+		return true
+	}
+	return dominatesInstr(callIn, cz.in)
 }
 
 // inNonHandoffBranch: the close sits in a block dominated by a select-index test selecting a state that is not a send.
